@@ -54,10 +54,10 @@ const (
 
 // Well-known actor indices (accounts of the genesis).
 const (
-	V  = 0  // validator operator
-	O  = 1  // data owner
-	G  = 2  // gateway node
-	S1 = 3  // storage nodes
+	V  = 0 // validator operator
+	O  = 1 // data owner
+	G  = 2 // gateway node
+	S1 = 3 // storage nodes
 	S2 = 4
 	S3 = 5
 	S4 = 6
@@ -429,14 +429,59 @@ func (f *Flat) DumpStores(names []string) []string {
 // ---------------------------------------------------------------------------------------------
 // Operations on a context
 
+// Flow is one bank transfer observed in the events of an operation ("" = minted / burned).
+type Flow struct {
+	From, To string
+	Amt      sdk.Int
+}
+
+// FlowsOf extracts bank transfers, mints and burns (bond denom only) from emitted events.
+func FlowsOf(evs sdk.Events) []Flow { return FlowsOfABCI(evs.ToABCIEvents()) }
+
+// FlowsOfABCI does the same on ABCI events (what a handler's sdk.Result and a DeliverTx response carry).
+func FlowsOfABCI(evs []abci.Event) []Flow {
+	var out []Flow
+	amt := func(s string) sdk.Int {
+		cs, err := sdk.ParseCoinsNormalized(s)
+		if err != nil {
+			return sdk.ZeroInt()
+		}
+		return cs.AmountOf(Denom)
+	}
+	for _, e := range evs {
+		var from, to, a string
+		for _, at := range e.Attributes {
+			switch string(at.Key) {
+			case "sender", "burner":
+				from = string(at.Value)
+			case "recipient", "minter":
+				to = string(at.Value)
+			case "amount":
+				a = string(at.Value)
+			}
+		}
+		switch e.Type {
+		case "transfer":
+			out = append(out, Flow{From: from, To: to, Amt: amt(a)})
+		case "coinbase":
+			out = append(out, Flow{From: "", To: to, Amt: amt(a)})
+		case "burn":
+			out = append(out, Flow{From: from, To: "", Amt: amt(a)})
+		}
+	}
+	return out
+}
+
 type Result struct {
-	OK       bool
-	Err      string
-	Panic    bool
-	OutOfGas bool
-	Data     []byte
-	Events   sdk.Events
-	GasUsed  uint64
+	Flows      []Flow
+	OK         bool
+	Err        string
+	Panic      bool
+	OutOfGas   bool
+	Data       []byte
+	Events     sdk.Events
+	ABCIEvents []abci.Event
+	GasUsed    uint64
 }
 
 // Exec runs msg exactly as baseapp.runMsgs does for one message: ValidateBasic, registered handler on a
@@ -468,7 +513,7 @@ func (w *World) Exec(ctx sdk.Context, msg sdk.Msg) (r Result) {
 		return Result{Err: err.Error(), GasUsed: gm.GasConsumed()}
 	}
 	write()
-	return Result{OK: true, Data: res.Data, Events: cc.EventManager().Events(), GasUsed: gm.GasConsumed()}
+	return Result{OK: true, Data: res.Data, ABCIEvents: res.Events, Flows: FlowsOfABCI(res.Events), GasUsed: gm.GasConsumed()}
 }
 
 // EndBlockers runs the custom end-blockers in application order at ctx's height. No recovery: a panic here
